@@ -23,9 +23,19 @@ def name_hook(e, w, an):
 
 
 # ------------------------------------------------------------------------------------------------ plumbing
-def derived_from(fn: Func, e: ast.AST, name: str, depth: int = 0) -> bool:
-    """e mentions `name`, or a local whose every definition is derived from `name`."""
+def derived_from(fn: Func, e: ast.AST, name, depth: int = 0) -> bool:
+    """e mentions `name`, or a local whose every definition is derived from `name`.  `name` may also be a predicate on
+    nodes (e.g. "is a call of main._used_names_in_files"), so that nothing depends on what a local is called."""
     if depth > 4:
+        return False
+    if callable(name):
+        for n in ast.walk(e):
+            if name(n):
+                return True
+            if isinstance(n, ast.Name):
+                defs = [v for _, v in assignments(fn, n.id) if v is not None]
+                if defs and n.id not in fn.all_params and any(derived_from(fn, v, name, depth + 1) for v in defs):
+                    return True
         return False
     for n in ast.walk(e):
         if isinstance(n, ast.Name):
